@@ -22,7 +22,13 @@ def gen_uploadflow(repo, out):
         body = body[1:]
     expect(len(body) == 2, "upload: transmit+record statements")
     dump_eq(body[0], "size = self._upload(inst, check_response=check_response, upload_method=upload_method)", "upload: transmit step")
-    dump_eq(body[1], "self.id_manager.mark_uploaded(inst.id, self._terminal_id, size=size)", "upload: record step")
+    rec = ast.unparse(body[1])
+    if rec == "self.id_manager.mark_uploaded(inst.id, self._terminal_id, size=size)":
+        records_transmitted = False
+    elif rec == "self.id_manager.mark_uploaded(inst.id, self._terminal_id, size=size, description=inst.get_description())":
+        records_transmitted = True
+    else:
+        raise ExtractError(f"upload: record step changed: {rec}")
     dump_eq(b[-3], "if self._config.redetect_terminal:\n    self.detect_terminal()", "upload: redetect")
     dump_eq(b[-4], "if force_upload is None:\n    force_upload = self._config.force_upload", "upload: force default")
     if unmark:
@@ -31,4 +37,5 @@ def gen_uploadflow(repo, out):
         src = ast.unparse(ast.Module(body=body_nodoc(f2), type_ignores=[]))
         expect("DELETE FROM upload" in src and "id=? AND terminal=?" in " ".join(src.split()), "unmark_uploaded: statement changed")
     t = HEADER + f"Definition upload_unmarks_first : bool := {'true' if unmark else 'false'}.\n"
+    t += f"Definition mark_records_transmitted : bool := {'true' if records_transmitted else 'false'}.\n"
     out.add("UploadFlowGen.v", t)
